@@ -264,7 +264,36 @@ pub fn run(cx: &mut Ctx) {
         let base_cmr = match cmr_of(p.text(), &base_args) {
             Outcome::Ok(c) => c,
             o => {
-                cx.report.inconclusive(json!({"why": format!("base program not accepted (C04's subject): {}", o.map(|_| ()).brief()), "program": p.text()}));
+                // rejected as written: then the same program with every alias replaced by its
+                // definition must be rejected too (an alias changes nothing)
+                let mut q = p.prog.clone();
+                let defs: Vec<(String, Ty)> = q.items.iter().filter_map(|it| if let Item::Alias(n, t) = it { Some((n.clone(), t.clone())) } else { None }).collect();
+                fn inline_all(t: &mut Ty, defs: &[(String, Ty)]) {
+                    match t {
+                        Ty::Alias(n) => {
+                            if let Some(d) = builtin_alias(n).or_else(|| defs.iter().find(|(m, _)| m == n).map(|(_, d)| d.clone())) {
+                                *t = d;
+                                inline_all(t, defs);
+                            }
+                        }
+                        Ty::Tuple(v) => v.iter_mut().for_each(|x| inline_all(x, defs)),
+                        Ty::Array(x, _) | Ty::List(x, _) | Ty::Option(x) => inline_all(x, defs),
+                        Ty::Either(l, r) => {
+                            inline_all(l, defs);
+                            inline_all(r, defs);
+                        }
+                        _ => {}
+                    }
+                }
+                for_each_ty(&mut q, &mut |t| inline_all(t, &defs));
+                q.items.retain(|it| !matches!(it, Item::Alias(..)));
+                let plain = render_plain(&q);
+                if let Outcome::Ok(_) = cmr_of(&plain, &base_args) {
+                    cx.report.violation(json!({"kind": "alias-acceptance", "what": format!("the program is rejected ({}) but accepted once every alias is replaced by its definition", o.map(|_| ()).brief()),
+                        "program": p.text(), "variant": plain, "signature": format!("alias-acc:{:016x}", fnv64(p.text().as_bytes()))}));
+                } else {
+                    cx.report.inconclusive(json!({"why": "base program not accepted with or without aliases (C04's subject)", "program": p.text()}));
+                }
                 continue;
             }
         };
